@@ -87,6 +87,9 @@ def _reset_process_globals():
 
 
 #: functions whose lines touch shared state without a lock around the whole step: pre-empted more often
+#: SDK functions whose entry is reported to Sim.sdk_probe (name -> argument of interest); only under line tracing
+PROBE_FUNCTIONS = {"raise_if_orphaned": "operation_id", "_mark_orphans": "context_id"}
+
 #: set by selftest/coverage.py: (file, line) of every SDK line executed under the line tracer (reach measurement only)
 COVER = None
 
@@ -121,6 +124,7 @@ class Sim:
         self.clock = clock
         self.policy = policy or DefaultPolicy()
         self.trace_lines = trace_lines
+        self.sdk_probe = None
         self.sdk_src = sdk_src
         self.quiet_limit = quiet_limit
         self.step_budget = step_budget
@@ -395,6 +399,10 @@ class Sim:
     # -------------------------------------------------------- line pre-emption
     def _tracer(self, frame, event, arg):
         if frame.f_code.co_filename.startswith(self.sdk_src):
+            name = frame.f_code.co_name
+            if self.sdk_probe is not None and name in PROBE_FUNCTIONS and not self.killed and not self.finished:
+                # observation only: the instant at which the SDK evaluates / updates its orphan bookkeeping
+                self.sdk_probe(name, frame.f_locals.get(PROBE_FUNCTIONS[name]))
             return self._line_tracer
         return None
 
